@@ -111,6 +111,11 @@ func runC02(c *Ctx) {
 			}
 		})
 	}
+	if ar != nil {
+		// the header fields may be read by a first step of the decoder: the decoder is then the caller that
+		// hands that step its own bytes
+		ar, _ = c.liftDecoder(ar, byteParam(ar))
+	}
 	if aw == nil || ar == nil {
 		r.Undecided("R2", "role:avp-codec", "-", "AVP.SerializeTo / the AVP decoder not found")
 	} else {
